@@ -26,10 +26,12 @@ from .model import call_name, src, walk_no_defs
 
 
 class Node:
-    __slots__ = ('ast', 'ctx', 'id', 'kind', 'lineno', 'pred', 'succ')
+    __slots__ = ('ast', 'cfg', 'ctx', 'flag', 'id', 'kind', 'lineno', 'pred', 'succ')
 
     def __init__(self, id, kind, node, ctx):
         self.id = id
+        self.flag = None        # name of the single-assignment boolean local this test node reads (see CFG.mark_flags)
+        self.cfg = None
         self.kind = kind
         self.ast = node
         self.lineno = getattr(node, 'lineno', 0) if node is not None else 0
@@ -294,6 +296,36 @@ class CFG:
         self.exit = None
         self.raise_exit = None
         self.by_ast = {}   # id(ast stmt/expr) -> [Node]
+        self.flags = {}    # flag name -> its test nodes
+
+    def mark_flags(self):
+        """A local that is bound exactly once (outside loops) and tested bare in two or more places is a *flag*: `stopping = self.running … if stopping: … if stopping:`.
+        All its tests come out the same way on one run; the path queries use this (sa/query.search) so that "took the true branch of the first test and the false
+        branch of the second" is not a path."""
+        fn = self.func.node
+        params = {a.arg for a in fn.args.posonlyargs + fn.args.args + fn.args.kwonlyargs} | ({fn.args.vararg.arg} if fn.args.vararg else set()) | \
+            ({fn.args.kwarg.arg} if fn.args.kwarg else set())
+        stores = {}
+        for w in walk_no_defs(fn):
+            if isinstance(w, ast.Name) and isinstance(w.ctx, (ast.Store, ast.Del)):
+                stores[w.id] = stores.get(w.id, 0) + 1
+        bound_once = set()
+        for n in self.nodes:
+            if n.kind == 'stmt' and isinstance(n.ast, ast.Assign) and len(n.ast.targets) == 1 and isinstance(n.ast.targets[0], ast.Name) \
+                    and not any(k == 'loop' for k, _a in n.ctx):
+                nm = n.ast.targets[0].id
+                if stores.get(nm) == 1 and nm not in params:
+                    bound_once.add(nm)
+        tests = {}
+        for n in self.nodes:
+            n.cfg = self
+            if n.kind == 'test' and isinstance(n.ast, ast.Name) and n.ast.id in bound_once:
+                tests.setdefault(n.ast.id, []).append(n)
+        for nm, ts in tests.items():
+            if len(ts) >= 2:
+                self.flags[nm] = ts
+                for t in ts:
+                    t.flag = nm
 
     def new(self, kind, node, ctx):
         n = Node(len(self.nodes), kind, node, ctx)
@@ -357,6 +389,7 @@ class _Builder:
         g.raise_exit = self.new('raise', None)
         out = self.seq(self.func.node.body, [(g.entry, 'n')])
         self.connect(out, g.exit)
+        g.mark_flags()
         return g
 
     # -- statements
